@@ -256,7 +256,7 @@ def check_cfg(ctx, fx, cfg):
     for kind, cf, key in subs:
         if cf is None or kind == "receive":
             continue
-        n_sub += 1
+        n_sub += len(chan.concrete_instances(fx, cf))  # a closure shared through a generic helper counts once per instantiation
         inst = "%s:%s@%s" % (kind, cf["def"], cfg)
         if kind == "forcing":
             b = ctx.body(fx, cf)
@@ -311,6 +311,14 @@ def check_cfg(ctx, fx, cfg):
             calls = [s for s in sk if s["k"] == "call"]
             other = [s["k"] for s in sk if s["k"] in ("agg", "store", "ret", "yield")]
             ok = len(calls) == 1 and calls[0]["t"].get("trait") in (chan.FORCE_TRAIT, chan.TX_TRAIT) and calls[0]["idx"] == 1 and not other
+            if not ok and not calls and other == ["ret"] and f["kind"] == "closure":
+                # the payload is the result of a closure that is given to a helper which invokes it and submits what it
+                # returns in place (`self.request(|tx| Payload::task(..))` with `send(into_task(tx))` inside)
+                via = payload_closure_submitted(ctx, fx, f)
+                if via is not None:
+                    n_sites -= 0
+                    ctx.ok("R01.4", inst, loc, {"submitted_by": via})
+                    continue
             if not ctx.require(ok, "R01.4", inst, "a payload must be handed to the submit closure in place: flows to %s %s" % ([(s["t"].get("callee"), s["idx"]) for s in calls], other), fn=f["def"], site=loc):
                 continue
             t = calls[0]["t"]
@@ -463,6 +471,37 @@ def check_cfg(ctx, fx, cfg):
     # R01.7 unsafe
     u = fx.d["unsafe"]
     ctx.require(u["lint_level"] == "Forbid" and u["count"] == 0, "R01.7", "unsafe-free@" + cfg, "unsafe code present or not forbidden: %s" % u, site="Cargo.toml [lints.rust]", detail=u)
+
+
+def payload_closure_submitted(ctx, fx, clo):
+    """closure `clo` returns a payload; every place that creates it hands it to a crate-local function that invokes that
+    parameter and passes the result straight to a submit closure of its own channel. Returns the helper's name or None."""
+    parent = fx.fn(clo.get("parent") or "")
+    if parent is None:
+        return None
+    pb = ctx.body(fx, parent)
+    helper = None
+    for _bi, _si, st in agg_sites(pb, ak="closure"):
+        if st["r"].get("def") != clo["def"]:
+            continue
+        sk = [s for s in sinks(pb, st["p"][0], into_closures=False) if s["k"] != "drop"]
+        if len(sk) != 1 or sk[0]["k"] != "call":
+            return None
+        h = fx.callee_fn(sk[0]["t"])
+        if h is None:
+            return None
+        hb = ctx.body(fx, h)
+        k = sk[0]["idx"] + 1
+        inv = [t for _b2, t in hb.normal_calls() if (t.get("callee") or "").endswith(("FnOnce::call_once", "FnMut::call_mut", "Fn::call")) and all(o.kind == "arg" and o.site == k and not o.proj for o in hb.origins(t["args"][0])) and hb.origins(t["args"][0])]
+        if len(inv) != 1 or len(inv[0]["dest"]) != 1:
+            return None
+        ps = [s for s in sinks(hb, inv[0]["dest"][0]) if s["k"] != "drop"]
+        if len(ps) != 1 or ps[0]["k"] != "call" or ps[0]["t"].get("trait") not in (chan.FORCE_TRAIT, chan.TX_TRAIT) or ps[0]["idx"] != 1:
+            return None
+        if not all(r.kind in ("arg", "upvar") for r in roots(hb, ps[0]["t"]["args"][0])):
+            return None
+        helper = h["def"]
+    return helper
 
 
 def check_enq_operands(ctx, fx, f, b, inst, payload_from):
